@@ -155,20 +155,22 @@ def shrink(it, cp, j, backend):
 # ---------------------------------------------------------------------------------------------------------------
 # dedicated beats default, whatever the order (anchors: "dedicated-then-default" lookups of every instruction kind)
 
-def _spec_case(g, kind):
+def _spec_case(g, kind, cps=("A", "B")):
     """returns (item_builder(DE_order, mode) -> Item) for one instruction kind; mode: joint | only_e_default | only_d"""
     from vlib.model import Field, Variant, Item
     k1, k2 = g.mark(), g.mark()
+    A, B = cps
 
     def tr(names, enum=False):
-        return [Instr(n, "trait", ty=c, hint=None, err=("E" if "try" in n else None), params=[]) for c in ("A", "B") for n in names]
+        return [Instr(n, "trait", ty=c, hint=None, err=("E" if "try" in n else None), params=[]) for c in (A, B) for n in names]
 
     def pick(d, e, order, mode):
         if mode == "only_d":
             return [d]
         if mode == "only_e_default":
             e2 = e.copy()
-            e2.f["container"] = None
+            if d.container() is None:
+                e2.f["container"] = None
             return [e2]
         return [d, e] if order == 0 else [e, d]
 
@@ -176,69 +178,80 @@ def _spec_case(g, kind):
         noise = []
         if kind == "member_map":
             d = Instr("map", "map", container=None, member=f"m{k1}", action=f"k{k1}(~)")
-            e = Instr("map", "map", container="A", member=f"m{k2}", action=f"k{k2}(~)")
+            e = Instr("map", "map", container=A, member=f"m{k2}", action=f"k{k2}(~)")
             it = Item("struct", "S", shape="named", attrs=tr(["map", "into_existing", "try_map"]))
             it.fields = [Field("pre", "i32"), Field("f", "i32", pick(d, e, order, mode)), Field("post", "i32")]
         elif kind == "ghost":
             d = Instr("ghost", "ghost", container=None, action=f"k{k1}()", braced=True)
-            e = Instr("ghost", "ghost", container="A", action=f"k{k2}()", braced=True)
+            e = Instr("ghost", "ghost", container=A, action=f"k{k2}()", braced=True)
             it = Item("struct", "S", shape="named", attrs=tr(["map"]))
             it.fields = [Field("pre", "i32"), Field("f", "i32", pick(d, e, order, mode))]
         elif kind == "ghosts":
             d = Instr("ghosts", "ghosts", container=None, entries=[dict(path=None, ident=f"g{k1}", action=f"k{k1}()")])
-            e = Instr("ghosts", "ghosts", container="A", entries=[dict(path=None, ident=f"g{k2}", action=f"k{k2}()")])
+            e = Instr("ghosts", "ghosts", container=A, entries=[dict(path=None, ident=f"g{k2}", action=f"k{k2}()")])
             it = Item("struct", "S", shape="named", attrs=tr(["map", "into_existing"]) + pick(d, e, order, mode))
             it.fields = [Field("pre", "i32")]
         elif kind == "child":
             d = Instr("child", "child", container=None, path=f"p{k1}")
-            e = Instr("child", "child", container="A", path=f"p{k2}")
+            e = Instr("child", "child", container=A, path=f"p{k2}")
             cp = Instr("child_parents", "child_parents", container=None, entries=[dict(path=f"p{k1}", ty="T1", hint=None), dict(path=f"p{k2}", ty="T2", hint=None)])
             it = Item("struct", "S", shape="named", attrs=tr(["map", "into_existing"]) + [cp])
             it.fields = [Field("pre", "i32"), Field("f", "i32", pick(d, e, order, mode))]
         elif kind == "child_parents":
             d = Instr("child_parents", "child_parents", container=None, entries=[dict(path="p", ty=f"T{k1}", hint=None)])
-            e = Instr("child_parents", "child_parents", container="A", entries=[dict(path="p", ty=f"T{k2}", hint=None)])
+            e = Instr("child_parents", "child_parents", container=A, entries=[dict(path="p", ty=f"T{k2}", hint=None)])
             it = Item("struct", "S", shape="named", attrs=tr(["map"]) + pick(d, e, order, mode))
             it.fields = [Field("pre", "i32"), Field("f", "i32", [Instr("child", "child", container=None, path="p")])]
         elif kind == "parent":
             d = Instr("parent", "parent", container=None, fields=f"x{k1}, y{k1}")
-            e = Instr("parent", "parent", container="A", fields=f"x{k2}, y{k2}")
+            e = Instr("parent", "parent", container=A, fields=f"x{k2}, y{k2}")
             it = Item("struct", "S", shape="named", attrs=tr(["into", "into_existing"]))
+            it.fields = [Field("pre", "i32"), Field("p", "P", pick(d, e, order, mode))]
+        elif kind == "parent_bare_vs_params":
+            # both dedicated: o2o treats the bare and the parameterised form as two facilities, each with its own default
+            d = Instr("parent", "parent", container=B, fields=f"x{k1}, y{k1}")
+            e = Instr("parent", "parent", container=A, fields=None)
+            it = Item("struct", "S", shape="named", attrs=tr(["into", "into_existing", "from"]))
+            it.fields = [Field("pre", "i32"), Field("p", "P", pick(d, e, order, mode))]
+        elif kind == "parent_params_vs_bare":
+            d = Instr("parent", "parent", container=B, fields=None)
+            e = Instr("parent", "parent", container=A, fields=f"x{k2}, y{k2}")
+            it = Item("struct", "S", shape="named", attrs=tr(["into", "into_existing", "from"]))
             it.fields = [Field("pre", "i32"), Field("p", "P", pick(d, e, order, mode))]
         elif kind == "where_clause":
             d = Instr("where_clause", "where_clause", container=None, preds=f"T: W{k1}")
-            e = Instr("where_clause", "where_clause", container="A", preds=f"T: W{k2}")
+            e = Instr("where_clause", "where_clause", container=A, preds=f"T: W{k2}")
             it = Item("struct", "S", shape="named", generics="<T>", attrs=tr(["map", "into_existing"]) + pick(d, e, order, mode))
             it.fields = [Field("t", "T")]
         elif kind in ("literal", "pattern"):
             if kind == "literal":
                 d = Instr("literal", "literal", container=None, tokens=str(1000 + k1))
-                e = Instr("literal", "literal", container="A", tokens=str(1000 + k2))
+                e = Instr("literal", "literal", container=A, tokens=str(1000 + k2))
                 names = ["map_owned", "from_ref"]
             else:
                 d = Instr("pattern", "pattern", container=None, tokens=f"{1000 + k1}..={1010 + k1}")
-                e = Instr("pattern", "pattern", container="A", tokens=f"{1000 + k2}..={1010 + k2}")
+                e = Instr("pattern", "pattern", container=A, tokens=f"{1000 + k2}..={1010 + k2}")
                 names = ["from_owned", "from_ref", "try_from_owned"]
-            it = Item("enum", "S", attrs=[Instr(n, "trait", ty=c, hint=None, err=("E" if "try" in n else None), params=[("default", "=> dflt()")]) for c in ("A", "B") for n in names])
+            it = Item("enum", "S", attrs=[Instr(n, "trait", ty=c, hint=None, err=("E" if "try" in n else None), params=[("default", "=> dflt()")]) for c in (A, B) for n in names])
             it.variants = [Variant("U", attrs=[Instr("literal", "literal", container=None, tokens="1")]), Variant("V", attrs=pick(d, e, order, mode))]
         elif kind == "type_hint":
             d = Instr("type_hint", "type_hint", container=None, hint="()")
-            e = Instr("type_hint", "type_hint", container="A", hint="Unit")
+            e = Instr("type_hint", "type_hint", container=A, hint="Unit")
             it = Item("enum", "S", attrs=tr(["owned_into", "ref_into", "owned_try_into"]))
             it.variants = [Variant("U"), Variant("V", "named", [Field("x", "i32"), Field("y", "u8")], pick(d, e, order, mode))]
         elif kind == "variant_ghosts":
             d = Instr("ghosts", "ghosts", container=None, entries=[dict(path=None, ident=f"g{k1}", action=f"k{k1}()")])
-            e = Instr("ghosts", "ghosts", container="A", entries=[dict(path=None, ident=f"g{k2}", action=f"k{k2}()")])
+            e = Instr("ghosts", "ghosts", container=A, entries=[dict(path=None, ident=f"g{k2}", action=f"k{k2}()")])
             it = Item("enum", "S", attrs=tr(["map"]))
             it.variants = [Variant("U"), Variant("V", "named", [Field("x", "i32")], pick(d, e, order, mode))]
         elif kind == "enum_ghosts":
             d = Instr("ghosts", "ghosts", container=None, entries=[dict(path=None, ident=f"X{k1}", action=f"k{k1}()")])
-            e = Instr("ghosts", "ghosts", container="A", entries=[dict(path=None, ident=f"X{k2}", action=f"k{k2}()")])
+            e = Instr("ghosts", "ghosts", container=A, entries=[dict(path=None, ident=f"X{k2}", action=f"k{k2}()")])
             it = Item("enum", "S", attrs=tr(["map"]) + pick(d, e, order, mode))
             it.variants = [Variant("U"), Variant("V", "tuple", [Field(None, "i32")])]
         elif kind == "variant_map":
             d = Instr("map", "map", container=None, member=f"M{k1}", action=None)
-            e = Instr("map", "map", container="A", member=f"M{k2}", action=None)
+            e = Instr("map", "map", container=A, member=f"M{k2}", action=None)
             it = Item("enum", "S", attrs=tr(["map", "try_map"]))
             it.variants = [Variant("U"), Variant("V", "tuple", [Field(None, "i32")], pick(d, e, order, mode))]
         else:
@@ -247,7 +260,9 @@ def _spec_case(g, kind):
     return build
 
 
-SPEC_KINDS = ["member_map", "ghost", "ghosts", "child", "child_parents", "parent", "where_clause", "literal", "pattern", "type_hint", "variant_ghosts", "enum_ghosts", "variant_map"]
+SPEC_KINDS = ["member_map", "ghost", "ghosts", "child", "child_parents", "parent", "where_clause", "literal", "pattern", "type_hint", "variant_ghosts", "enum_ghosts", "variant_map",
+              "parent_bare_vs_params", "parent_params_vs_bare"]
+SPEC_CPS = [("A", "B"), ("A", "B"), ("G<i32>", "G<u8>"), ("m::C", "n::C"), ("Q<'x, u8>", "Q<'y, u8>"), ("B", "A")]
 
 
 def specificity(ck, g, tier):
@@ -255,23 +270,27 @@ def specificity(ck, g, tier):
     cases = []
     for kind in SPEC_KINDS:
         for _ in range(reps):
-            b = _spec_case(g, kind)
-            cases.append((kind, [b(0, "joint"), b(1, "joint"), b(0, "only_e_default"), b(0, "only_d")]))
-    srcs = [it.render() for _, vs in cases for it in vs]
+            cps = g.pick(SPEC_CPS)
+            if kind in ("literal", "pattern") and cps[0] not in ("A", "B"):
+                cps = ("A", "B")
+            b = _spec_case(g, kind, cps)
+            cases.append((kind, cps, [b(0, "joint"), b(1, "joint"), b(0, "only_e_default"), b(0, "only_d")]))
+    srcs = [it.render() for _, _, vs in cases for it in vs]
     for backend in ("s1", "s2"):
         outs = common.run_x(srcs, backend)
-        for i, (kind, vs) in enumerate(cases):
+        for i, (kind, cps, vs) in enumerate(cases):
             o = outs[4 * i:4 * i + 4]
             ck.count()
-            ck.cell(["specificity", kind])
+            ck.cell(["specificity", kind, "same_path" if cps[0] not in ("A", "B") else "distinct"])
+            KA, KB = xform.cpkey(cps[0]), xform.cpkey(cps[1])
             if any(x["status"] != "ok" for x in o):
                 bad = next(x for x in o if x["status"] != "ok")
                 ck.violation(f"specificity|not_accepted|{kind}|{common.panic_sig(bad) if bad['status'] == 'panic' else bad['status']}", dict(inputs=[v.render() for v in vs], outcome=common.brief(bad), backend=backend))
                 continue
             im = [impls_by_cp(x["tokens"]) for x in o]
-            a = [m.get("A", []) for m in im]
-            b = [m.get("B", []) for m in im]
-            if a[0] == im[3].get("A", []) or not a[0] or not b[0]:
+            a = [m.get(KA, []) for m in im]
+            b = [m.get(KB, []) for m in im]
+            if a[0] == im[3].get(KA, []) or not a[0] or not b[0]:
                 ck.violation(f"specificity|dedicated_has_no_effect|{kind}", dict(inputs=[v.render() for v in vs], note="the dedicated instruction changed nothing in its own counterpart's impls"))
                 continue
             what = None
